@@ -12,4 +12,5 @@ var Registry = map[string]func(Args) error{
 	"cer": CER,
 	"gate": Gate,
 	"handshake": Handshake,
+	"watchdog": Watchdog,
 }
